@@ -41,6 +41,9 @@ type Op struct {
 // Step is one op, or several released together.
 type Step struct {
 	Ops []Op `json:"ops"`
+	// Held: Ops[0] is an auction whose bid provider does not answer until the
+	// other ops, issued one after the other meanwhile, have all returned.
+	Held bool `json:"held,omitempty"`
 }
 
 // Case is a history against one service instance.
@@ -62,12 +65,16 @@ var (
 	strangerKey = hexOf(0xee, 48)
 	relayKeys   = []string{hexOf(0xac, 48), hexOf(0x8b, 48)}
 	relayPool   = []string{relayHost + "/r1", relayHost + "/r2", relayHost + "/r3", relayHost + "/r4"}
-	gasPool     = []string{"1", "30000000", "60000000", "36000000", "18446744073709551615"}
-	gracePool   = []string{"0", "1", "500", "1000"}
-	minPool     = []string{"0", "0.1", "0.5", "1", "0.000000000000000001", "0.05"}
-	walletPool  = []string{"Wallet 1", "Wallet 2", "Wallet 10"}
-	accountPool = []string{"Account 1", "Account 2", "Account 10"}
-	regexPool   = []string{"Wallet 1/.*", "^Wallet 1/.*$", "Wallet 1/Account 1", "^Wallet 2/Account [12]$", ".*", "Wallet [12]/Account 1", ".*/Account 2"}
+	// unusableRelay is accepted by the configuration parser but no builder client
+	// can be made for it (url.Parse rejects the host): registration rounds must
+	// skip it and return.
+	unusableRelay = "http://bad relay:18550"
+	gasPool       = []string{"1", "30000000", "60000000", "36000000", "18446744073709551615"}
+	gracePool     = []string{"0", "1", "500", "1000"}
+	minPool       = []string{"0", "0.1", "0.5", "1", "0.000000000000000001", "0.05"}
+	walletPool    = []string{"Wallet 1", "Wallet 2", "Wallet 10"}
+	accountPool   = []string{"Account 1", "Account 2", "Account 10"}
+	regexPool     = []string{"Wallet 1/.*", "^Wallet 1/.*$", "Wallet 1/Account 1", "^Wallet 2/Account [12]$", ".*", "Wallet [12]/Account 1", ".*/Account 2"}
 )
 
 func genFields(t *rapid.T, withKey bool) Fields {
@@ -92,7 +99,11 @@ func genFields(t *rapid.T, withKey bool) Fields {
 
 func distinctAddrs(t *rapid.T, label string, max int) []string {
 	n := rapid.IntRange(0, max).Draw(t, label)
-	return rapid.Permutation(relayPool).Draw(t, label+"Perm")[:n]
+	res := append([]string(nil), rapid.Permutation(relayPool).Draw(t, label+"Perm")[:n]...)
+	if n > 0 && rapid.IntRange(0, 5).Draw(t, label+"Unusable") == 0 {
+		res[rapid.IntRange(0, n-1).Draw(t, label+"Which")] = unusableRelay
+	}
+	return res
 }
 
 // genV2 stays clear of the deviations C10 reports (a "disabled" relay that is
@@ -251,7 +262,21 @@ func genCase(t *rapid.T) Case {
 	nSteps := rapid.IntRange(2, 12).Draw(t, "nSteps")
 	for i := 0; i < nSteps; i++ {
 		var st Step
-		if rapid.IntRange(0, 9).Draw(t, "batch") < 3 {
+		sel := rapid.IntRange(0, 9).Draw(t, "batch")
+		if sel == 3 || sel == 4 {
+			// an auction kept waiting by its bid provider; meanwhile a refresh, a lookup, ...
+			slot++
+			st.Held = true
+			st.Ops = append(st.Ops, Op{Kind: "auction", Validator: rapid.IntRange(0, nVal-1).Draw(t, "heldValidator"), Slot: slot,
+				Bid: rapid.SampledFrom([]string{"none", "bid", "error"}).Draw(t, "heldBid")})
+			o := genOutcome(t, &c, false)
+			st.Ops = append(st.Ops, Op{Kind: "refresh", Outcome: &o})
+			v := rapid.IntRange(0, nVal).Draw(t, "validator")
+			st.Ops = append(st.Ops, Op{Kind: "lookup", Validator: v, NilAccount: v == nVal || rapid.Bool().Draw(t, "nilAccount")})
+			for k := rapid.IntRange(0, 2).Draw(t, "heldExtra"); k > 0; k-- {
+				st.Ops = append(st.Ops, genOp(true, false))
+			}
+		} else if sel < 3 {
 			n := rapid.IntRange(2, 6).Draw(t, "batchSize")
 			refreshed := false
 			for k := 0; k < n; k++ {
